@@ -2,7 +2,7 @@ SPECIFICATION Spec
 CONSTANTS
   MinBodies = 3
   MaxBodies = 4
-  JTypes <- AllJ
+  JTypes <- AllJB
   Axes <- Ax6
   Offsets <- K_Off
   Rots <- K_Rot
@@ -21,6 +21,7 @@ CONSTANTS
   Qs <- K_Q
   Vs <- K_V
   As <- K_A
+  QScales <- QS3
   Gravs <- K_G
   DisSets <- NoDis
   TenK <- One0
@@ -30,6 +31,7 @@ CONSTANTS
   TenZero <- NoTz
   SpPairs <- NoSpS
   SpArms <- One0
+  Sleeps <- NoTz
   StiffPolys <- P00
   DampPolys <- P00
   TenKPolys <- P00
